@@ -369,3 +369,26 @@ func HC08() {
 	}
 	vReach("end")
 }
+
+// HC09Alpha: the same two implications as HC09Whole / HC09Prefix on longer inputs restricted to the
+// structural alphabet (quotes, escapes, separators, brackets, one digit, one letter, t, space).
+func HC09Alpha() {
+	maxN := vChoice("maxlen", 64)
+	x := vBytes("x", 1, maxN)
+	for _, c := range x {
+		vAssume(c == '[' || c == ']' || c == '{' || c == '}' || c == '"' || c == '\\' || c == ',' || c == ':' || c == '1' || c == 'a' || c == 't' || c == ' ')
+	}
+	vAssume(x[0] == '[' || x[0] == '{')
+	if vChoice("mode", 2) == 0 {
+		if JSON(x, 0) {
+			st, _ := jDoc(x, false)
+			vAssert(st == jAcc, "alpha-whole-json-implies-wellformed")
+		}
+	} else {
+		if JSON(x, uint32(len(x))) {
+			st, _ := jDoc(x, false)
+			vAssert(st != jRej, "alpha-prefix-json-implies-viable-prefix")
+		}
+	}
+	vReach("end")
+}
